@@ -20,7 +20,7 @@ FUNS = [lambda t: 1.0 + 0 * t, lambda t: t, lambda t: t ** 2, np.sin, np.cos, la
 
 def tasks(tier, seed):
     out = []
-    n = 48 if tier == 'quick' else 320
+    n = 48 if tier == 'quick' else common.thorough(320)
     for k in range(n):
         out.append(('vt.props.c16', 't3_mandy', {'seed': seed, 'k': k, 'backend': 'T3', 'variant': ['cm', 'fm', 'fm1', 'kb'][k % 4],
                                                  'deficient': (k // 4) % 3 == 2, 'sig': ['cm', 'fm', 'fm1', 'kb'][k % 4]}))
